@@ -43,6 +43,18 @@ func extractAll(root string, o *out) {
 	// the reload: everything from reading the served DB through db.Reload, the pointer swap and the
 	// cache purge inside one exclusive section of reloadMu
 	o.strs("dnsserver_Reload_trace", lockTrace(dnsserver, "FBDNSDB.Reload", "reloadMu", "dnsdb", "Reload", "Purge"))
+	// fbserver/any.go: the fields of the synthesized HINFO answer (composite literals in ServeDNS)
+	o.sb.WriteString("\n/-! fbserver/any.go -/\n")
+	fbserver := load(root, "fbserver")
+	anyFn := fbserver.funcDecl("anyHandler.ServeDNS")
+	o.str("fbserver_any_hinfo_cpu", compositeField(fbserver, anyFn, "HINFO", "Cpu"))
+	o.str("fbserver_any_hinfo_os", compositeField(fbserver, anyFn, "HINFO", "Os"))
+	o.str("fbserver_any_hinfo_ttl", compositeField(fbserver, anyFn, "RR_Header", "Ttl"))
+
+	// db/answer.go dnsLabelWildsafe: the byte classes that let a wildcard stretch across a label
+	o.sb.WriteString("\n/-! db/answer.go -/\n")
+	dbp := load(root, "db")
+	o.strs("db_wildsafe_classes", wildsafeClasses(dbp))
 	o.sb.WriteString("\n/-! metrics/swindow.go -/\n")
 	metrics := load(root, "metrics")
 	for _, fn := range []string{"cleaner", "Add", "Samples"} {
@@ -146,4 +158,97 @@ func sprintfFormatAssignedTo(p *pkgInfo, fn, name string) string {
 		fail("%s: expected exactly one `%s = fmt.Sprintf(\"...\", …)`, found %d", fn, name, n)
 	}
 	return found
+}
+
+// compositeField returns the source text of field `field` in the first composite literal of type
+// <pkg>.<typ> (or <typ>) inside fn, unquoted if it is a string literal.
+func compositeField(p *pkgInfo, fn *ast.FuncDecl, typ, field string) string {
+	found, ok := "", false
+	ast.Inspect(fn.Body, func(nd ast.Node) bool {
+		cl, is := nd.(*ast.CompositeLit)
+		if !is || ok {
+			return true
+		}
+		name := ""
+		switch t := cl.Type.(type) {
+		case *ast.SelectorExpr:
+			name = t.Sel.Name
+		case *ast.Ident:
+			name = t.Name
+		}
+		if name != typ {
+			return true
+		}
+		for _, e := range cl.Elts {
+			kv, is := e.(*ast.KeyValueExpr)
+			if !is {
+				continue
+			}
+			if id, is := kv.Key.(*ast.Ident); is && id.Name == field {
+				if lit, is := kv.Value.(*ast.BasicLit); is {
+					found, ok = lit.Value, true
+					if lit.Kind == token.STRING {
+						if u, err := strconv.Unquote(lit.Value); err == nil {
+							found = u
+						}
+					}
+				}
+			}
+		}
+		return true
+	})
+	if !ok {
+		fail("%s: no literal field %s.%s in %s", p.dir, typ, field, fn.Name.Name)
+	}
+	return found
+}
+
+// wildsafeClasses lists the comparisons of dnsLabelWildsafe's loop body in source order, e.g.
+// "a-z", "0-9", "-", "_" (each `c >= X && c <= Y` or `c == X` found in an if condition).
+func wildsafeClasses(p *pkgInfo) []string {
+	fd := p.funcDecl("dnsLabelWildsafe")
+	var out []string
+	lit := func(e ast.Expr) string {
+		if b, ok := e.(*ast.BasicLit); ok && b.Kind == token.CHAR {
+			if u, err := strconv.Unquote(b.Value); err == nil {
+				return u
+			}
+		}
+		return "?"
+	}
+	var walk func(e ast.Expr)
+	walk = func(e ast.Expr) {
+		be, ok := e.(*ast.BinaryExpr)
+		if !ok {
+			out = append(out, "?")
+			return
+		}
+		switch be.Op {
+		case token.LOR:
+			walk(be.X)
+			walk(be.Y)
+		case token.LAND:
+			l, lok := be.X.(*ast.BinaryExpr)
+			r, rok := be.Y.(*ast.BinaryExpr)
+			if lok && rok && l.Op == token.GEQ && r.Op == token.LEQ {
+				out = append(out, lit(l.Y)+"-"+lit(r.Y))
+			} else {
+				out = append(out, "?")
+			}
+		case token.EQL:
+			out = append(out, lit(be.Y))
+		default:
+			out = append(out, "?")
+		}
+	}
+	ast.Inspect(fd.Body, func(nd ast.Node) bool {
+		if is, ok := nd.(*ast.IfStmt); ok {
+			walk(is.Cond)
+		}
+		return true
+	})
+	if len(out) == 0 {
+		fail("%s: dnsLabelWildsafe has no recognisable conditions", p.dir)
+	}
+	return out
 }
